@@ -161,6 +161,16 @@ def _run(ctx):
         check_case(ctx, gen.TAG("ul", *kids, ws=True, via_fn=False), 2, "\n")
         check_case(ctx, {"k": "list", "t": "taglist", "c": kids}, 41, "\n")
         ctx.count("extreme_shapes", 5)
+        # ... and further out: 140 levels, indent arguments of 80 and 300, 2600 siblings
+        for d in range(70):
+            chain = gen.TAG("ul", chain, ws=True, via_fn=False) if d % 2 else gen.TAG("li", lg.leaf("text", ids2), chain, lg.leaf("text", ids2), ws=True, via_fn=False)
+        for indent, eol in ((0, "\n"), (80, "\n"), (300, "\r\n")):
+            check_case(ctx, chain, indent, eol)
+        kids = [lg.leaf("text", ids2) if i % 5 == 1 else gen.TAG("em", lg.leaf("text", ids2), ws=False, via_fn=False) if i % 5 == 2 else gen.TAG("p", lg.leaf("text", ids2), ws=True, via_fn=False)
+                for i in range(2600)]
+        check_case(ctx, gen.TAG("section", *kids, ws=True, via_fn=False), 0, "\n")
+        check_case(ctx, {"k": "list", "t": "taglist", "c": kids}, 120, "\n")
+        ctx.count("extreme_shapes", 5)
     # fixed documentation examples
     ex = gen.TAG("div", gen.T("a"), gen.TAG("span", gen.T("b"), ws=False), gen.TAG("p", gen.T("c")), gen.T("d"))
     ctx.sample({"recipe": ex, "output": gen.build(ex).get_html_string()})
